@@ -183,6 +183,61 @@ fn compute_impl(inp: &Input) -> Tables {
     }
 }
 
+/// Execute `<push a value of tag>; IsType(pattern)` on the real VM (sync path). `inp` must already
+/// contain the probing function as its LAST function (so that the model sees the same input).
+/// Answers `ok` / `nil` / `error:<class>` / `unsupported`.
+fn execute_is_type(inp: &Input, pattern: usize, tag: &str) -> String {
+    use quiver_core::bytecode::Constant;
+    let Some(t) = Sx::parse(tag).and_then(|x| x.into_iter().next()) else { return "unsupported".into() };
+    let mut code: Vec<Instruction> = vec![];
+    match &t {
+        Sx::A(a) if a == "i" => code.push(Instruction::Constant(0)),
+        Sx::A(a) if a == "b" => code.push(Instruction::Constant(1)),
+        Sx::L(v) => {
+            let n = v.get(1).and_then(|x| x.nat()).unwrap_or(0);
+            match v.first().and_then(|x| x.atom()) {
+                Some("t") => {
+                    let Some(info) = inp.tbl.tuples.get(n) else { return "unsupported".into() };
+                    for _ in 0..info.fields.len() {
+                        code.push(Instruction::Constant(0));
+                    }
+                    code.push(Instruction::Tuple(n));
+                }
+                Some("f") => code.push(Instruction::Function(n)),
+                Some("p") => code.push(Instruction::Process(7, n)),
+                _ => return "unsupported".into(),
+            }
+        }
+        _ => return "unsupported".into(),
+    }
+    code.push(Instruction::IsType(pattern));
+    let mut functions: Vec<Function> = inp
+        .functions
+        .iter()
+        .map(|(ty, is)| Function { instructions: is.iter().map(|i| Instruction::IsType(*i)).collect(), captures: 0, type_id: *ty })
+        .collect();
+    let entry = functions.len() - 1;
+    functions[entry].instructions = code;
+    let bc = Bytecode {
+        constants: vec![Constant::Integer(0.into()), Constant::Binary(vec![0])],
+        functions,
+        builtins: vec![],
+        entry: Some(entry),
+        tuples: inp.tbl.tuples.clone(),
+        types: inp.tbl.types.clone(),
+        resources: inp.resources.clone(),
+    };
+    let b = qverif::run::builtins();
+    match quiver_core::execute_bytecode_sync(bc, &b, false) {
+        Ok((v, _)) => match v {
+            quiver_core::value::Value::Tuple(1, _) => "ok".into(),
+            quiver_core::value::Value::Tuple(0, _) => "nil".into(),
+            other => format!("value:{}", other.type_name()),
+        },
+        Err(e) => format!("error:{}", qverif::canon::error_class(&e)),
+    }
+}
+
 // ---------------------------------------------------------------------------------------------
 // implementation server (child process): `C <input json>` → three lines joined by tabs
 // ---------------------------------------------------------------------------------------------
@@ -194,12 +249,25 @@ fn impl_server_main() {
     let mut out = std::io::stdout();
     for line in stdin.lock().lines() {
         let Ok(line) = line else { break };
-        let ans = match serde_json::from_str::<J>(&line).ok().and_then(|j| Input::of_json(&j)) {
+        let j = serde_json::from_str::<J>(&line).ok();
+        let ans = match j.as_ref().and_then(Input::of_json) {
             None => "bad-request".to_string(),
-            Some(inp) => match catch(|| compute_impl(&inp)) {
-                Ok(t) => format!("{}\t{}\t{}", t.tc, t.pc, t.canon),
-                Err(p) => format!("P {}", p.lines().next().unwrap_or("")),
-            },
+            Some(inp) => {
+                if let Some(pr) = j.as_ref().and_then(|j| j.get("probe")) {
+                    // run a real `IsType` instruction on a value of the given tag
+                    let p = pr["pattern"].as_u64().unwrap_or(0) as usize;
+                    let tag = pr["tag"].as_str().unwrap_or("");
+                    match catch(|| execute_is_type(&inp, p, tag)) {
+                        Ok(s) => s,
+                        Err(m) => format!("P {}", m.lines().next().unwrap_or("")),
+                    }
+                } else {
+                    match catch(|| compute_impl(&inp)) {
+                        Ok(t) => format!("{}\t{}\t{}", t.tc, t.pc, t.canon),
+                        Err(p) => format!("P {}", p.lines().next().unwrap_or("")),
+                    }
+                }
+            }
         };
         let _ = writeln!(out, "{ans}");
         let _ = out.flush();
@@ -270,6 +338,31 @@ impl ImplServer {
                 self.rx = rx;
                 self.restarts += 1;
                 Err(why.to_string())
+            }
+        }
+    }
+}
+
+impl ImplServer {
+    /// run a real IsType instruction in the child; `Err` when the child died
+    fn probe(&mut self, inp: &Input, pattern: usize, tag: &str) -> Result<String, String> {
+        use std::io::Write;
+        let mut j = inp.to_json();
+        j["probe"] = json!({"pattern": pattern, "tag": tag});
+        let line = j.to_string();
+        let sent = self.stdin.write_all(line.as_bytes()).is_ok() && self.stdin.write_all(b"\n").is_ok() && self.stdin.flush().is_ok();
+        let ans = if sent { self.rx.recv_timeout(std::time::Duration::from_secs(20)) } else { Err(std::sync::mpsc::RecvTimeoutError::Disconnected) };
+        match ans {
+            Ok(l) => Ok(l),
+            Err(_) => {
+                let _ = self.child.kill();
+                let _ = self.child.wait();
+                let (child, stdin, rx) = Self::start();
+                self.child = child;
+                self.stdin = stdin;
+                self.rx = rx;
+                self.restarts += 1;
+                Err("the process aborted or did not answer".into())
             }
         }
     }
@@ -793,6 +886,64 @@ fn main() {
         if let Some(t) = correspond(&mut ev, &mut model, &mut srv, &inp, "generated", &key) {
             if stream != "open" {
                 oracle(&mut ev, &mut model, &inp, &t, "generated");
+            }
+            // the executor's lookup itself: run a real `IsType` on a value of a random tag
+            // (the probing function is appended to the input, for the model as for the VM)
+            for _ in 0..2 {
+                let n_types = inp.tbl.types.len();
+                if n_types == 0 {
+                    break;
+                }
+                let pattern = if !_pool.is_empty() && r.chance(3, 4) { _pool[r.usize(_pool.len())] } else { r.usize(n_types + 1) };
+                let tag = match r.below(6) {
+                    0 => "i".to_string(),
+                    1 => "b".to_string(),
+                    2 | 3 => format!("(t {})", r.usize(inp.tbl.tuples.len())),
+                    4 if !inp.functions.is_empty() => format!("(f {})", r.usize(inp.functions.len())),
+                    _ if !inp.functions.is_empty() => format!("(p {})", r.usize(inp.functions.len())),
+                    _ => "i".to_string(),
+                };
+                let mut inp2 = inp.clone();
+                inp2.builtins.clear();
+                inp2.functions.push((0, vec![pattern]));
+                let (sx, _) = inp2.sx();
+                if !model.ask(&sx).starts_with("ok ") {
+                    continue;
+                }
+                let m = model.ask_t(&format!("(is-type {pattern} {tag})"), 30);
+                if m == "fuel-out" || m == "model-timeout" {
+                    ev.hit("execute-IsType:model-fuel-out (VM not run)");
+                    continue;
+                }
+                let want = if m == "true" { "ok" } else { "nil" };
+                ev.case(&(&key, "execute", pattern, &tag), true);
+                match srv.probe(&inp2, pattern, &tag) {
+                    Ok(got) if got == want => ev.hit(&format!("execute-IsType:{got}")),
+                    Ok(got) if got == "unsupported" => ev.hit("execute-IsType:unsupported-tag"),
+                    Ok(got) => {
+                        // the model mirrors the tables; is the VM's verdict wrong for the PROPERTY?
+                        let mut found = false;
+                        let mut what = format!("executing IsType({}) on a value with tag {tag} gives {got}, the model of the tables says {m}", inp2.tbl.show(pattern));
+                        if let Ok(tid) = model.ask(&format!("(tag-type {tag})")).parse::<usize>() {
+                            if got == "ok" {
+                                let snd = model.ask(&format!("(sound {pattern} {tag} {EFUEL} {WIDTH})"));
+                                if snd.starts_with("(bad") {
+                                    found = true;
+                                    what = format!("the VM accepts a value with tag {tag} (type {}) for the pattern {}, but the value {snd} of that type does not inhabit the pattern", inp2.tbl.show(tid), inp2.tbl.show(pattern));
+                                }
+                            } else if got == "nil" && model.ask(&format!("(compat {tid} {pattern})")) == "true" {
+                                found = true;
+                                what = format!("the VM rejects a value with tag {tag} for the pattern {} although its type {} is assignable to the pattern (a known member is rejected)", inp2.tbl.show(pattern), inp2.tbl.show(tid));
+                            }
+                        }
+                        report(&mut ev, &format!("corr=execute-IsType impl={} model={m}", got.split(':').next().unwrap_or("")), &what,
+                            json!({"broken": "correspondence model<->impl on Executor::check_type_compatible / get_concrete_type", "input": inp2.to_json(), "pattern": pattern, "tag": tag, "impl": got, "model": m}), found);
+                    }
+                    Err(why) => {
+                        report(&mut ev, "impl-no-answer:execute-IsType", &format!("executing IsType on tag {tag}: {why}; the model answers {m}"),
+                            json!({"input": inp2.to_json(), "pattern": pattern, "tag": tag, "broken": "correspondence: the VM crashes loading / running this input"}), true);
+                    }
+                }
             }
         }
     }
